@@ -17,6 +17,10 @@ Families (all cases are in the case format of harness/c11.py, so the C11 exact-r
            order differs from the index order, or in index order with permuted labels; asymmetric initial states as
            dicts, 40% of them strict local minima (which T = 0 must return unchanged).  The model (`c12_anneal`) is fed
            the mapping read by index — the data the code reads — never the insertion order of the dicts
+  reheat   SUPPORTING STATISTICAL CLAUSE, every run: non-monotone schedules (a zero-temperature stretch followed by positive
+           temperatures) started from a strict local minimum, fixed and generated 2-4-variable models, 400 seeds each: the
+           number of runs that end in the initial state must be within 6 sigma of n * p0, p0 the exact probability under
+           the k-step Metropolis dynamics computed here (p0 is well below 1: the re-heated sweeps must be performed)
   chi2     (d) SUPPORTING STATISTICAL TEST, not proof — thorough tier (and the failing-input search of the quick tier):
            ~2*10^5 anneals of 2-3-spin models, k <= 3 sweeps from a given state, both visiting orders, one fresh seed
            per anneal; chi-square of the empirical final-state distribution against the exact k-step single-spin
@@ -79,7 +83,7 @@ def gen_model(rng, fn, kind, nmax=8):
 
 def gen_schedule(rng, maxdur):
     dur = rng.choice([1, 2, 5, 10, 20, 40, maxdur, rng.randint(1, maxdur)])
-    mode = rng.choice(["zero", "mixed", "hot", "cool", "cool", "const", "tail0"])
+    mode = rng.choice(["zero", "mixed", "hot", "cool", "cool", "const", "tail0", "reheat", "reheat", "midzero"])
     if mode == "zero":
         Ts = [0.0] * dur
     elif mode == "mixed":
@@ -88,6 +92,13 @@ def gen_schedule(rng, maxdur):
         Ts = [rng.uniform(2, 50) for _ in range(dur)]
     elif mode == "const":
         Ts = [rng.choice([0.25, 0.5, 1.0, 3.0])] * dur
+    elif mode == "reheat":                      # a zero-temperature stretch first, then positive temperatures again
+        z = rng.randint(1, max(1, dur // 2))
+        Ts = [0.0] * z + [rng.choice([8.0, 6.0, 2.5, 1.0, rng.uniform(0.5, 10)]) for _ in range(max(1, dur - z))]
+    elif mode == "midzero":                     # hot, zeros in the middle, hot again
+        a = max(1, dur // 3)
+        Ts = ([rng.uniform(0.5, 8) for _ in range(a)] + [0.0] * rng.randint(1, a + 1) +
+              [rng.uniform(0.5, 8) for _ in range(a)])
     elif mode == "tail0":
         h = dur // 2
         Ts = sorted((rng.uniform(0.01, 8) for _ in range(h)), reverse=True) + [0.0] * (dur - h)
@@ -514,24 +525,56 @@ CHI2_CONFIGS = [
     ("pubo", "PUBOMatrix", [[[0, 1, 2], "2"], [[0, 1], "-1"], [[2], "-1/2"], [[1], "1/2"]], [1, 0, 1], [1.25], True),
 ]
 
-def chi2_case(cfg, n, seed0):
-    fn, kind, ops, init, Ts, in_order = cfg
-    return {"c12": "chi2", "fn": fn, "kind": kind, "ops": ops, "init": init, "Ts": Ts, "in_order": in_order, "n": n,
-            "seed0": seed0}
+# re-heating schedules started from a strict local minimum (every single flip raises the energy): the exact k-step
+# distribution puts visible mass away from the initial state, so skipped positive-temperature sweeps show
+REHEAT_CONFIGS = [
+    ("quso", "QUSOMatrix", [[[0, 1], "-1"], [[1, 2], "-1"], [[0], "-1/2"], [[2], "-1/2"]], [1, 1, 1], [0.0, 2.0, 1.0], True),
+    ("quso", "QUSOMatrix", [[[0, 1], "-1"], [[1, 2], "-1"], [[0], "-1/2"], [[2], "-1/2"]], [1, 1, 1], [0.0, 0.0, 3.0], False),
+    ("quso", "QUSO", [[[0, 1], "-1"], [[1, 2], "-1"], [[0], "-1/2"], [[2], "-1/2"]], [1, 1, 1], [2.0, 0.0, 0.0, 1.5], True),
+    ("qubo", "QUBOMatrix", [[[0, 1], "2"], [[0], "-1"], [[1], "-1"]], [1, 0], [0.0, 1.0, 0.5], False),
+    ("puso", "PUSOMatrix", [[[0, 1, 2], "-1"], [[0], "-1/2"], [[1], "-1/2"], [[2], "-1/2"]], [1, 1, 1], [0.0, 2.0], True),
+    ("quso", "QUSOMatrix", [[[0, 1], "-1"], [[1, 2], "-1"], [[2, 3], "-1"], [[0], "-1"], [[3], "-1"]], [1, 1, 1, 1],
+     [0.0, 0.0, 8.0, 8.0, 6.0], True),
+]
 
-def run_chi2(case):
-    """returns (finding or None, summary dict)"""
+def gen_reheat_config(rng):
+    """a generated 2-4-variable Matrix model without isolated variable, a strict local minimum of it as initial state,
+    and a schedule of 1-3 zeros followed by 1-3 positive temperatures (None if the descent found no strict minimum)"""
+    fn = rng.choice(["quso", "quso", "qubo", "puso", "pubo"])
+    kind = MATRIX_OF[fn][0]
+    spin = fn in SPIN_FNS
+    n = rng.randint(2, 4)
+    ids = list(range(n))
+    keys = {(i,) for i in ids if rng.random() < 0.6}
+    for _ in range(rng.randint(1, 4)):
+        ln = 2 if fn in ("quso", "qubo") else rng.choice([2, 3])
+        keys.add(tuple(sorted(rng.sample(ids, min(ln, n)))))
+    for i in ids:
+        if not any(i in k for k in keys):
+            keys.add(tuple(sorted((i, rng.choice([x for x in ids if x != i])))))
+    ops = [[list(k), rng.choice(["1", "-1", "2", "-2", "1/2", "-1/2", "3/2", "-3/2"])] for k in sorted(keys)]
+    case = {"fn": fn, "ops": ops}
+    lm = local_minimum(rng, case, ids)
+    if lm is None:
+        return None
+    Ts = [0.0] * rng.randint(1, 3) + [rng.choice([1.0, 2.0, 4.0, 8.0]) for _ in range(rng.randint(1, 3))]
+    init, in_order = [v for _, v in lm], rng.random() < 0.5
+    p0 = exact_distribution(model_poly(case), n, init, Ts, in_order, spin)[tuple(init)]
+    if not 0.1 <= p0 <= 0.9:          # keep the binomial well inside the normal regime (sigma >= 6 for 400 anneals)
+        return None
+    return (fn, kind, ops, init, Ts, in_order)
+
+def sample_final_states(case):
+    """case['n'] anneals of the configuration, one fresh seed each: (counts of final states, exact distribution)"""
     import qubovert.sim as sim
     fn, spin = case["fn"], case["fn"] in SPIN_FNS
     n = len(case["init"])
     obj = c11.cls_of(case["kind"])()
     for k, v in case["ops"]:
         obj[tuple(k)] += float(Fraction(v))
-    poly = model_poly(case)
     init = dict(enumerate(case["init"]))
     f = getattr(sim, "anneal_" + fn)
-    counts = {}
-    Ts = list(case["Ts"])
+    counts, Ts = {}, list(case["Ts"])
     with warnings.catch_warnings():
         warnings.simplefilter("ignore")
         for i in range(case["n"]):
@@ -539,7 +582,60 @@ def run_chi2(case):
             r = f(obj, num_anneals=1, initial_state=init, in_order=case["in_order"], seed=seed, schedule=Ts)
             st = tuple(r[0].state[j] for j in range(n))
             counts[st] = counts.get(st, 0) + 1
-    dist = exact_distribution(poly, n, case["init"], Ts, case["in_order"], spin)
+    return counts, exact_distribution(model_poly(case), n, case["init"], Ts, case["in_order"], spin)
+
+def run_reheat(case):
+    """the 6-sigma clause on the probability of ending in the initial state; returns (finding or None, summary)"""
+    spin = case["fn"] in SPIN_FNS
+    poly = model_poly(case)
+    x0 = dict(enumerate(case["init"]))
+    if not all(energy(poly, flipped(x0, i, spin)) > energy(poly, x0) for i in x0):
+        return ("C12:generator", "initial state of a reheat configuration is not a strict local minimum (harness bug)"), {}
+    counts, dist = sample_final_states(case)
+    n = case["n"]
+    p0 = dist[tuple(case["init"])]
+    got = counts.get(tuple(case["init"]), 0)
+    sigma = math.sqrt(n * p0 * (1 - p0))
+    summ = {"fn": case["fn"], "in_order": case["in_order"], "Ts": case["Ts"], "anneals": n, "p_stay": round(p0, 4),
+            "stayed": got, "expected": round(n * p0, 1), "sigma": round(sigma, 2)}
+    if abs(got - n * p0) > 6 * sigma + 0.5:
+        return (("C12:distribution",
+                 "STATISTICAL CLAUSE: %d anneals of anneal_%s (%s %s, in_order=%s, one seed per anneal) with the re-heating "
+                 "schedule %s from the strict local minimum %s: %d runs end in the initial state, but under the exact %d-step "
+                 "single-spin Metropolis dynamics (acceptance min(1, exp(-dE/T))) that has probability %.4f, i.e. %.1f +- %.1f "
+                 "runs (more than 6 sigma off) — the sweeps at positive temperature after the zero-temperature stretch are not "
+                 "the Metropolis sweeps" % (n, case["fn"], case["kind"], case["ops"], case["in_order"], case["Ts"],
+                                            case["init"], got, len(case["Ts"]), p0, n * p0, sigma)), summ)
+    return None, summ
+
+def reheat_family(ctx, n_generated, per_config):
+    cfgs = list(REHEAT_CONFIGS)
+    tries = 0
+    while len(cfgs) < len(REHEAT_CONFIGS) + n_generated and tries < 40 * n_generated + 40:
+        tries += 1
+        g = gen_reheat_config(ctx.rng)
+        if g is not None:
+            cfgs.append(g)
+    for cfg in cfgs:
+        case = dict(chi2_case(cfg, per_config, ctx.rng.randrange(2 ** 31)), c12="reheat")
+        bad, summ = run_reheat(case)
+        ctx.case(case, True)
+        ctx.count("reheat:%s:%s" % (cfg[0], "in_order" if cfg[5] else "random"))
+        if summ and (bad or cfg in REHEAT_CONFIGS):
+            ctx.notes.append("reheat (supporting statistical clause, not proof) %s" % summ)
+        if bad:
+            ctx.violation(bad[0], case, bad[1])
+
+def chi2_case(cfg, n, seed0):
+    fn, kind, ops, init, Ts, in_order = cfg
+    return {"c12": "chi2", "fn": fn, "kind": kind, "ops": ops, "init": init, "Ts": Ts, "in_order": in_order, "n": n,
+            "seed0": seed0}
+
+def run_chi2(case):
+    """returns (finding or None, summary dict)"""
+    fn = case["fn"]
+    Ts = list(case["Ts"])
+    counts, dist = sample_final_states(case)
     N = case["n"]
     # states of probability 0 must not occur; bins with expectation < 5 are pooled
     chi, df, pool_e, pool_o = 0.0, -1, 0.0, 0
@@ -577,7 +673,7 @@ def run_chi2(case):
     return None, summ
 
 def chi2_family(ctx, per_config):
-    for k, cfg in enumerate(CHI2_CONFIGS):
+    for k, cfg in enumerate(CHI2_CONFIGS + REHEAT_CONFIGS):
         case = chi2_case(cfg, per_config, ctx.rng.randrange(2 ** 31))
         bad, summ = run_chi2(case)
         ctx.case(case, True)
@@ -664,8 +760,9 @@ def check(ctx):
                  [gen_zero_mapping(rng) for _ in range(ctx.scale(900, 7000))])
     process(ctx, replay_cases + zero_cases + tie_cases + kernel_cases + map_cases)
     repro_family(ctx, replay_cases[:ctx.scale(400, 3500)] + map_cases[:ctx.scale(100, 500)], replay_cases)
+    reheat_family(ctx, ctx.scale(10, 150), 400)
     if ctx.tier == "thorough":
-        chi2_family(ctx, 25000)        # 8 configurations x 25 000 = 2*10^5 anneals
+        chi2_family(ctx, 25000)        # 8 + 6 re-heating configurations x 25 000 anneals
     if ctx.diffs and not ctx.violations:
         search(ctx)
 
@@ -708,6 +805,11 @@ def replay(ctx, payload):
     fam = c.get("c12")
     if fam == "chi2":
         bad, summ = run_chi2(c)
+        ctx.case(c, True)
+        if bad:
+            ctx.violation(bad[0], c, bad[1])
+    elif fam == "reheat":
+        bad, summ = run_reheat(c)
         ctx.case(c, True)
         if bad:
             ctx.violation(bad[0], c, bad[1])
